@@ -73,6 +73,8 @@ func (t *WeightedMerkleTrie) Update(key, value []byte, weight uint64) error {
 		t.root = emptyNode
 	}
 	if len(value) != 0 {
+		// the value node keeps the bytes: store a copy, the caller may re-use its buffer after the call
+		value = append([]byte(nil), value...)
 		_, n, err := t.insert(t.root, nil, k, &valueNode{value: value, weight: weight, dirty: true})
 		if err != nil {
 			return err
